@@ -6,7 +6,7 @@
 #   log                  append-only event log, one JSON object per line, "seq": 1, 2, 3, ...;
 #                        ordering is read from seq only, never from clocks. Events of the queue:
 #                        submit / start / exit / finish / cancel / cancel-noop / cancel-unknown /
-#                        squeue / scontrol / scancel; the harness appends its own through the same lock
+#                        squeue / scancel (scontrol is read-only and logs nothing); the harness appends its own through the same lock
 #   seqno                last sequence number handed out
 #   nextid               next job id
 #   nsub                 number of jobs submitted so far (submission index of the next one)
